@@ -38,7 +38,7 @@ var c16Statements = []string{
 	"SELECT * FROM t0 WHERE da IN (SELECT da FROM nosuch GROUP BY da)", "SELECT * FROM (DELETE FROM t0)", "SELECT * FROM (SELECT * FROM (SELECT * FROM t0))", "SELECT * FROM t0, t0", "SELECT * FROM t0 JOIN t0 ON a = b",
 	"SELECT * FROM t0 WHERE da LIKE", "SELECT * FROM t0 WHERE da IS", "SELECT * FROM t0 WHERE NOT", "SELECT * FROM t0 WHERE da = (SELECT 1)", "SELECT * FROM t0 WHERE 1", "SELECT * FROM t0 WHERE da", "SELECT * FROM t0 HAVING", "SELECT * FROM t0 HAVING da",
 	"SELECT * FROM t0 ORDER BY", "SELECT * FROM t0 ORDER BY 1", "SELECT * FROM t0 GROUP BY da AS", "SELECT f0 AS FROM t0", "SELECT f0 f1 f2 FROM t0", "SELECT * FROM t0 WHERE da = 'a' AND", "SELECT \x00 FROM t0", "SELECT * FROM t0 /* force_fresh",
-	"SELECT `a\\` FROM t0 GROUP BY `b", "SELECT `a\\` FROM t0", "SELECT * FROM t0 WHERE da = 'x\\' AND `b", "SELECT /* ' */ `a FROM t0", "SELECT /* ` */ f0 FROM t0", "SELECT -- ' \n `a FROM t0", "SELECT \"a\\\" FROM t0 GROUP BY `b", "SELECT 'a''b' AS x, `c FROM t0", "SELECT `a``b FROM t0", "SELECT * FROM t0 WHERE da = '\\'' AND `b",
+	"SELECT `a\\` FROM t0 GROUP BY `b", "SELECT ``b FROM t0", "SELECT `a``b FROM t0", "SELECT `` FROM t0", "SELECT f0 FROM t0 WHERE da = `` AND db = 1", "SELECT `a\\` FROM t0", "SELECT * FROM t0 WHERE da = 'x\\' AND `b", "SELECT /* ' */ `a FROM t0", "SELECT /* ` */ f0 FROM t0", "SELECT -- ' \n `a FROM t0", "SELECT \"a\\\" FROM t0 GROUP BY `b", "SELECT 'a''b' AS x, `c FROM t0", "SELECT `a``b FROM t0", "SELECT * FROM t0 WHERE da = '\\'' AND `b",
 	"SELECT * FROM t0 ASOF '-2s' UNTIL '-5s'", "SELECT f0 FROM t0 ASOF '-1s' UNTIL '-1s' GROUP BY da", "SELECT * FROM t0 ASOF '2000-01-01T00:00:30Z' UNTIL '2000-01-01T00:00:10Z'", "SELECT _points FROM t0 ASOF '-10s' UNTIL '-50s' GROUP BY _, period(5s)", "SELECT * FROM t0 ASOF '5s' UNTIL '-5s'", "SELECT * FROM t0 UNTIL '-100000h'", "SELECT * FROM t0 ASOF '100000h'",
 	"SELECT AVG(SUM(x)) AS s FROM t0", "SELECT WAVG(x) AS s FROM t0", "SELECT WAVG(x, SUM(y)) AS s FROM t0", "SELECT LN() AS s FROM t0", "SELECT x + AS s FROM t0", "SELECT (x AS s FROM t0", "SELECT x) AS s FROM t0",
 }
@@ -127,7 +127,7 @@ func mutateSQL(r *Rng, base string) string {
 	case 4: // truncate
 		return base[:r.Intn(len(base)+1)]
 	case 5: // replace a token by something odd
-		toks[r.Intn(len(toks))] = PickOne(r, []string{"(", ")", ",", "'", "*", "NULL", "SELECT", "FROM", "''", "1e999", "-", "period(", "IN", "(SELECT", "`", "\\", "%", ";", "`a\\`", "/*", "*/", "/* ' */", "--", "\\`", "'\\'"})
+		toks[r.Intn(len(toks))] = PickOne(r, []string{"(", ")", ",", "'", "*", "NULL", "SELECT", "FROM", "''", "1e999", "-", "period(", "IN", "(SELECT", "`", "\\", "%", ";", "`a\\`", "``", "`a``b", "/*", "*/", "/* ' */", "--", "\\`", "'\\'"})
 	case 6: // statement-type substitution
 		toks[0] = PickOne(r, []string{"DELETE", "INSERT", "UPDATE", "SHOW", "SET", "EXPLAIN", "select"})
 	case 7: // wrap
